@@ -11,7 +11,7 @@ from .formulas import check, get_func
 
 
 def _txt(n):
-    return " ".join(ast.unparse(n).split())
+    return common.src_of(n)
 
 
 def run(eng, R):
